@@ -12,6 +12,8 @@ import (
 	"time"
 
 	v1 "k8s.io/api/core/v1"
+	storagev1 "k8s.io/api/storage/v1"
+	"k8s.io/apimachinery/pkg/util/sets"
 	apiequality "k8s.io/apimachinery/pkg/api/equality"
 	metav1 "k8s.io/apimachinery/pkg/apis/meta/v1"
 	"k8s.io/apimachinery/pkg/api/resource"
@@ -22,6 +24,7 @@ import (
 
 	"verif/harness/internal/vh"
 	"volcano.sh/volcano/pkg/scheduler/api"
+	schedcache "volcano.sh/volcano/pkg/scheduler/cache"
 )
 
 // ---------- names ----------
@@ -49,12 +52,16 @@ var nameTable = []nameInfo{
 	{12, "hugepages-64Ki", false, true},            // in IgnoredDevicesList AND pod-level capable (the corner of Lemmas.pl_tracked)
 	{13, "kubernetes.io/batteries", true, false},
 	{14, "attachable-volumes-csi-example", true, false},
+	// the attach-limit names SchedulerCache.NewTaskInfo charges the pod's CSI volumes to (Entry.vol_key: 14 + driver)
+	{15, "attachable-volumes-csi-drv1", true, false},
+	{16, "attachable-volumes-csi-drv2", true, false},
 }
 
 var nameOf = map[int64]v1.ResourceName{}
 var idOf = map[v1.ResourceName]int64{}
 
 func init() {
+	initVolumeWorld()
 	api.IgnoredDevicesList.Set([]string{"volcano.sh/vgpu-number", "hugepages-64Ki"})
 	for k, n := range fixedNames {
 		nameOf[k] = n
@@ -115,6 +122,7 @@ var phases = []v1.PodPhase{"", v1.PodPending, v1.PodRunning, v1.PodSucceeded, v1
 type caseT struct {
 	ippvs, plr, ippl, dra bool
 	meta                  metaT
+	vols                  []int64 // volume kinds, see Entry.vol_key
 	pod                   podT
 }
 
@@ -128,7 +136,9 @@ func encRlT(l rlT) []int64 {
 
 func (c caseT) tokens() []int64 {
 	out := []int64{vh.B(c.ippvs), vh.B(c.plr), vh.B(c.ippl), vh.B(c.dra),
-		c.meta.phase, vh.B(c.meta.node), vh.B(c.meta.deleting), int64(len(nameTable))}
+		c.meta.phase, vh.B(c.meta.node), vh.B(c.meta.deleting), int64(len(c.vols))}
+	out = append(out, c.vols...)
+	out = append(out, int64(len(nameTable)))
 	for _, ni := range nameTable {
 		out = append(out, ni.id, vh.B(ni.tracked), vh.B(ni.plsup))
 	}
@@ -200,6 +210,10 @@ func decode(in []int64) caseT {
 	c.meta = metaT{phase: r.next(), node: r.flag(), deleting: r.flag()}
 	if c.meta.phase < 0 || int(c.meta.phase) >= len(phases) {
 		panic("phase out of range")
+	}
+	nv := int(r.next())
+	for i := 0; i < nv; i++ {
+		c.vols = append(c.vols, r.next())
 	}
 	n := int(r.next())
 	if n != len(nameTable) {
@@ -298,9 +312,13 @@ func double(l v1.ResourceList) v1.ResourceList {
 func buildContainer(x contT) v1.Container {
 	c := v1.Container{Name: fmt.Sprintf("c%d", x.name)}
 	c.Resources.Requests = toList(x.req)
+	// limits are not part of either computation: twice the requests on even
+	// names, limits WITHOUT a matching request on names 1, 7, 13..., none otherwise
 	if x.name%2 == 0 {
-		// limits are not part of either computation; set them on some containers
 		c.Resources.Limits = double(c.Resources.Requests)
+	} else if x.name%6 == 1 {
+		c.Resources.Limits = v1.ResourceList{v1.ResourceCPU: resource.MustParse("7"), v1.ResourceMemory: resource.MustParse("9Gi"),
+			"example.com/foo": resource.MustParse("3"), "hugepages-2Mi": resource.MustParse("64Mi")}
 	}
 	if x.sidecar {
 		p := v1.ContainerRestartPolicyAlways
@@ -322,6 +340,81 @@ func buildStatus(x statT) v1.ContainerStatus {
 }
 
 var deletionTime = metav1.NewTime(time.Date(2025, 1, 2, 3, 4, 5, 0, time.UTC))
+
+// ---------- the volume world of SchedulerCache.NewTaskInfo ----------
+
+var theCache *schedcache.SchedulerCache
+
+func driverName(d int64) string { return fmt.Sprintf("drv%d", d) }
+
+// PVC / PV / StorageClass objects behind the volume kinds of Entry.vol_key
+func initVolumeWorld() {
+	theCache = schedcache.NewDefaultMockSchedulerCache("volcano")
+	theCache.IgnoredCSIProvisioners = sets.New("ignored.csi.example.com")
+	pvcs, pvs, scs := theCache.VerifVolumeStores()
+	must := func(err error) {
+		if err != nil {
+			panic(err)
+		}
+	}
+	ctrl := true
+	owner := []metav1.OwnerReference{{APIVersion: "v1", Kind: "Pod", Name: "p", UID: "uid-p", Controller: &ctrl}}
+	addPVC := func(name, pv, class string, owned bool) {
+		pvc := &v1.PersistentVolumeClaim{ObjectMeta: metav1.ObjectMeta{Namespace: "ns", Name: name}}
+		pvc.Spec.VolumeName = pv
+		if class != "" {
+			c := class
+			pvc.Spec.StorageClassName = &c
+		}
+		if owned {
+			pvc.OwnerReferences = owner
+		}
+		must(pvcs.Add(pvc))
+	}
+	nfs := &v1.PersistentVolume{ObjectMeta: metav1.ObjectMeta{Name: "pv-nfs"}}
+	nfs.Spec.NFS = &v1.NFSVolumeSource{Server: "s", Path: "/"}
+	must(pvs.Add(nfs))
+	addPVC("pvc-k-1", "pv-nfs", "", false)
+	must(scs.Add(&storagev1.StorageClass{ObjectMeta: metav1.ObjectMeta{Name: "sc-ignored"}, Provisioner: "ignored.csi.example.com"}))
+	addPVC("pvc-k30", "", "sc-ignored", false)
+	for d := int64(1); d <= 2; d++ {
+		pv := &v1.PersistentVolume{ObjectMeta: metav1.ObjectMeta{Name: "pv-" + driverName(d)}}
+		pv.Spec.CSI = &v1.CSIPersistentVolumeSource{Driver: driverName(d), VolumeHandle: "h"}
+		must(pvs.Add(pv))
+		must(scs.Add(&storagev1.StorageClass{ObjectMeta: metav1.ObjectMeta{Name: "sc-" + driverName(d)}, Provisioner: driverName(d)}))
+		must(scs.Add(&storagev1.StorageClass{ObjectMeta: metav1.ObjectMeta{Name: "scp-" + driverName(d)}, Provisioner: "other.example.com",
+			Parameters: map[string]string{"csi.storage.k8s.io/csi-driver-name": driverName(d)}}))
+		addPVC(fmt.Sprintf("pvc-k%d", d), "pv-"+driverName(d), "", false)
+		addPVC(fmt.Sprintf("pvc-k%d", 10+d), "", "sc-"+driverName(d), false)
+		addPVC(fmt.Sprintf("pvc-k%d", 20+d), "", "scp-"+driverName(d), false)
+		for i := 0; i < maxVolumes; i++ {
+			// the claim of a generic ephemeral volume is named <pod>-<volume> and owned by the pod
+			addPVC(fmt.Sprintf("p-e%dx%d", d, i), "pv-"+driverName(d), "", true)
+		}
+	}
+}
+
+const maxVolumes = 6
+
+func buildVolumes(kinds []int64) []v1.Volume {
+	var out []v1.Volume
+	for i, k := range kinds {
+		vol := v1.Volume{Name: fmt.Sprintf("v%d", i)}
+		switch {
+		case k == 0:
+			vol.EmptyDir = &v1.EmptyDirVolumeSource{}
+		case k == 41 || k == 42:
+			vol.Name = fmt.Sprintf("e%dx%d", k-40, i)
+			vol.Ephemeral = &v1.EphemeralVolumeSource{VolumeClaimTemplate: &v1.PersistentVolumeClaimTemplate{}}
+		case k == -1 || k == 30 || k == 1 || k == 2 || k == 11 || k == 12 || k == 21 || k == 22:
+			vol.PersistentVolumeClaim = &v1.PersistentVolumeClaimVolumeSource{ClaimName: fmt.Sprintf("pvc-k%d", k)}
+		default:
+			panic("unknown volume kind")
+		}
+		out = append(out, vol)
+	}
+	return out
+}
 
 func buildPod(p podT, m metaT) *v1.Pod {
 	pod := &v1.Pod{}
@@ -478,6 +571,9 @@ func encList(l v1.ResourceList) []int64 {
 type results struct {
 	vc, noinit, rq, irq *api.Resource
 	bestEffort          bool
+	crq, cirq           *api.Resource // SchedulerCache.NewTaskInfo
+	cBestEffort         bool
+	kubeScalars         []int64 // (name, Value) pairs of kube-scheduler's EphemeralStorage / ScalarResources
 	up                  v1.ResourceList
 	upRes               *api.Resource
 	kubeMilliCPU        int64 // kube-scheduler's own PodInfo.CalculateResource
@@ -487,12 +583,22 @@ type results struct {
 func compute(c caseT) results {
 	setGates(c)
 	pod := buildPod(c.pod, c.meta)
+	if len(c.vols) > maxVolumes {
+		panic("too many volumes")
+	}
+	pod.Spec.Volumes = buildVolumes(c.vols)
 	before := pod.DeepCopy()
 	var r results
 	r.vc = api.GetPodResourceRequest(pod)
 	r.noinit = api.GetPodResourceWithoutInitContainers(pod)
 	ti := api.NewTaskInfo(pod)
 	r.rq, r.irq, r.bestEffort = ti.Resreq, ti.InitResreq, ti.BestEffort
+	// the TaskInfo the scheduler cache builds (addPod): CSI volumes counted on top
+	cti, cerr := theCache.NewTaskInfo(pod)
+	if cerr != nil {
+		panic("SchedulerCache.NewTaskInfo: " + cerr.Error())
+	}
+	r.crq, r.cirq, r.cBestEffort = cti.Resreq, cti.InitResreq, cti.BestEffort
 	opts := upstreamOpts()
 	r.up = helpers.PodRequests(pod, opts)
 	r.upRes = api.NewResource(r.up)
@@ -516,6 +622,23 @@ func compute(c caseT) results {
 		panic("harness oracle: PodRequests options differ from kube-scheduler's CalculateResource")
 	}
 	r.kubeMilliCPU, r.kubeMemory = kr.GetMilliCPU(), kr.GetMemory()
+	// kube keeps ephemeral-storage and scalar resources as Value(); volcano as MilliValue(): comparable
+	// (x 1000) for the names volcano tracks whose amounts in this pod are all whole units
+	whole := c.pod.wholeNames()
+	kube := map[int64]int64{4: kr.GetEphemeralStorage()}
+	for n, v := range kr.GetScalarResources() {
+		kube[idOf[n]] = v
+	}
+	ids := []int64{}
+	for id := range kube {
+		ids = append(ids, id)
+	}
+	sort.Slice(ids, func(i, j int) bool { return ids[i] < ids[j] })
+	for _, id := range ids {
+		if whole[id] && (id == 4 || trackedID(id)) {
+			r.kubeScalars = append(r.kubeScalars, id, kube[id])
+		}
+	}
 	return r
 }
 
@@ -526,7 +649,8 @@ func run(sel int, in []int64) []int64 {
 	r := compute(decode(in))
 	var out []int64
 	for _, x := range [][]int64{tag(1), encRes(r.vc), tag(2), encRes(r.noinit), tag(3), encList(r.up), tag(4), encRes(r.upRes),
-		tag(5), encRes(r.rq), tag(6), encRes(r.irq), tag(7), {vh.B(r.bestEffort)}} {
+		tag(5), encRes(r.rq), tag(6), encRes(r.irq), tag(7), {vh.B(r.bestEffort)},
+		tag(8), encRes(r.crq), tag(9), encRes(r.cirq), tag(10), {vh.B(r.cBestEffort)}} {
 		out = append(out, x...)
 	}
 	return out
@@ -553,6 +677,32 @@ func (p podT) lists() []rlT {
 		out = append(out, s.res, s.alloc)
 	}
 	out = append(out, p.claims...)
+	return out
+}
+
+func trackedID(id int64) bool {
+	for _, ni := range nameTable {
+		if ni.id == id {
+			return ni.tracked
+		}
+	}
+	return false
+}
+
+// names all of whose amounts anywhere in the pod are whole units (so that
+// kube's Value() and volcano's MilliValue() differ by exactly the factor 1000)
+func (p podT) wholeNames() map[int64]bool {
+	out := map[int64]bool{}
+	for id := range nameOf {
+		out[id] = true
+	}
+	for _, l := range p.lists() {
+		for _, x := range l {
+			if x.q.v < 0 || (x.q.e > 0 && x.q.v%pow10(x.q.e) != 0) {
+				out[x.k] = false
+			}
+		}
+	}
 	return out
 }
 
@@ -624,25 +774,32 @@ func (p podT) untrackedPodLevel() bool {
 func laws(sel int, in, got []int64, law func(lsel int, lin []int64, sig string)) {
 	c := decode(in)
 	p := c.pod
-	if p.negative() || p.namesCollide() || p.untrackedPodLevel() {
-		return // outside the stated assumptions: correspondence only
-	}
-	r := compute(c)
 	cat := func(xs ...[]int64) (o []int64) {
 		for _, x := range xs {
 			o = append(o, x...)
 		}
 		return
 	}
+	outside := p.negative() || p.namesCollide() || p.untrackedPodLevel()
+	inside := !outside && !p.offGrid()
+	// the classification below decides which law a case gets: it must be the extracted decision of
+	// the theorem's hypothesis pod_ok itself (an over-broad "outside" would silently skip the law)
+	law(105, cat([]int64{vh.B(inside)}, in), "")
+	if outside {
+		return // outside the stated assumptions: correspondence only
+	}
+	r := compute(c)
 	if p.offGrid() {
 		// finer than milli-cpu / whole bytes: informative only
 		law(102, cat(encRes(r.upRes), encRes(r.vc), encRes(r.rq), encRes(r.irq)), "")
 		return
 	}
-	// what NewTaskInfo stores for this pod in its phase: Resreq == InitResreq == upstream + pods, BestEffort == empty
+	// what api.NewTaskInfo stores for this pod in its phase: Resreq == InitResreq == upstream + pods, BestEffort == empty
 	law(101, cat(encRes(r.upRes), encRes(r.vc), encRes(r.rq), encRes(r.irq), []int64{vh.B(r.bestEffort)}), "")
 	// the same in kube-scheduler's units, not going through volcano's NewResource
-	law(103, cat([]int64{r.kubeMilliCPU, r.kubeMemory}, encRes(r.vc), encRes(r.rq)), "")
+	law(103, cat([]int64{r.kubeMilliCPU, r.kubeMemory, int64(len(r.kubeScalars) / 2)}, r.kubeScalars, encRes(r.vc), encRes(r.rq)), "")
+	// what the scheduler cache charges (SchedulerCache.NewTaskInfo): + the pod's CSI volumes per attach-limit name
+	law(104, cat(encRes(r.upRes), encRes(r.crq), encRes(r.cirq), []int64{vh.B(r.cBestEffort), int64(len(c.vols))}, c.vols), "")
 }
 
 // ---------- generators ----------
@@ -734,7 +891,7 @@ func nearRl(r *vh.Rng, g genCfg, base rlT, pool []int64) rlT {
 func genPod(r *vh.Rng, g genCfg) podT {
 	var p podT
 	pool := []int64{2, 3}
-	extra := []int64{4, 5, 6, 7, 8, 9, 10, 11, 13, 14}
+	extra := []int64{4, 5, 6, 7, 8, 9, 10, 11, 13, 14, 15}
 	for _, k := range extra {
 		if r.Chance(1, 4) {
 			pool = append(pool, k)
@@ -907,7 +1064,7 @@ func describe(c caseT) any {
 		"containers": len(p.cs), "inits": shape.String(), "statuses": len(p.cst) + len(p.ist),
 		"overhead": len(p.oh) > 0, "podLevel": p.hasPl, "podStatusResources": p.hasPst, "claims": len(p.claims),
 		"conditions": fmt.Sprint(p.conds),
-		"phase":      phaseName(c.meta.phase), "nodeName": c.meta.node, "deleting": c.meta.deleting,
+		"phase":      phaseName(c.meta.phase), "nodeName": c.meta.node, "deleting": c.meta.deleting, "volumes": fmt.Sprint(c.vols),
 	}
 }
 
@@ -921,6 +1078,19 @@ func phaseName(ph int64) string {
 // lifecycle position: mostly Pending (unscheduled / bound) and Running, the
 // terminal and unknown phases less often; a Running pod is normally bound but
 // the odd combinations (Running without nodeName, Succeeded being deleted...) occur too
+// most pods have no claim volumes; the others mix every way a volume resolves (or does not) to a CSI driver
+func genVols(r *vh.Rng) []int64 {
+	if r.Chance(3, 5) {
+		return nil
+	}
+	n := r.Range(1, maxVolumes)
+	out := []int64{}
+	for i := 0; i < n; i++ {
+		out = append(out, vh.Pick(r, []int64{0, -1, 30, 1, 1, 2, 11, 12, 21, 22, 41, 42}))
+	}
+	return out
+}
+
 func genMeta(r *vh.Rng) metaT {
 	m := metaT{phase: vh.Pick(r, []int64{1, 1, 1, 2, 2, 2, 2, 3, 4, 5, 0})}
 	switch m.phase {
@@ -955,7 +1125,7 @@ func gen(rng *vh.Rng, n int, emit func(id string, sel int, in []int64, kind stri
 				// unless "" / Pending-unscheduled; a deletion timestamp on every third pod
 				for ph := int64(0); ph < int64(len(phases)); ph++ {
 					m := metaT{phase: ph, node: ph >= 2 || (ph == 1 && k%2 == 0), deleting: (k+int(ph))%3 == 0}
-					one(fmt.Sprintf("interleave-%d-%s", k, phaseName(ph)), "valid/interleavings", caseT{ippvs: true, plr: true, ippl: true, meta: m, pod: p})
+					one(fmt.Sprintf("interleave-%d-%s", k, phaseName(ph)), "valid/interleavings", caseT{ippvs: true, plr: true, ippl: true, meta: m, vols: [][]int64{nil, nil, {1}, {1, 41, 0, 2, 21, 1}}[(k+int(ph))%4], pod: p})
 				}
 				k++
 			}
@@ -968,6 +1138,7 @@ func gen(rng *vh.Rng, n int, emit func(id string, sel int, in []int64, kind stri
 			c.plr, c.ippl, c.dra = genGates(r)
 			c.pod = genPod(r, g)
 			c.meta = genMeta(r)
+			c.vols = genVols(r)
 			if fixGates != nil {
 				fixGates(&c)
 			}
